@@ -239,6 +239,39 @@ class OneShot(list):
         return items
 
 
+class _ClassScope(dict):
+    """Names visible while a class body runs: the methods and class-level assignments written above in that body (visit_While = visit_If)."""
+
+    def __init__(self, interp, cq, node):
+        dict.__init__(self)
+        self._interp, self._cq, self._node = interp, cq, node
+
+    def _find(self, name):
+        for st in self._node.body:
+            if isinstance(st, (ast.FunctionDef, ast.AsyncFunctionDef)) and st.name == name:
+                return ('def', st)
+            if isinstance(st, ast.Assign) and any(isinstance(t, ast.Name) and t.id == name for t in st.targets):
+                return ('assign', st)
+        return None
+
+    def __contains__(self, name):
+        return dict.__contains__(self, name) or self._find(name) is not None
+
+    def __getitem__(self, name):
+        if dict.__contains__(self, name):
+            return dict.__getitem__(self, name)
+        hit = self._find(name)
+        if hit is None:
+            raise KeyError(name)
+        if hit[0] == 'def':
+            return Closure(hit[1], {}, self._interp, cls=self._cq)
+        found, val = self._interp._class_attr(self._cq, name)
+        return val if found else TOP
+
+    def get(self, name, default=None):
+        return self[name] if name in self else default
+
+
 class PyCallable(object):
     """A callable value supplied by a rule (e.g. the object a hooked constructor returns): calling it runs fn(interp, args, kwargs)."""
 
@@ -731,7 +764,7 @@ class Interp(object):
                 old = self.module
                 self.module = ci.module
                 try:
-                    val = self.ev(hit, {})
+                    val = self.ev(hit, _ClassScope(self, k, ci.node))
                 except (_Raise, _Abort):
                     val = TOP
                 finally:
